@@ -1,1 +1,45 @@
-def main : IO Unit := IO.println "ok"
+/-
+  Driver — line protocol: one request per line on stdin, one response per line on stdout.
+  (`partial` only in the I/O loop; no theorem mentions anything in this file.)
+-/
+import BartiqModel
+import Generated
+open Bartiq Sexp
+
+def errSexp (e : Err) : Sexp := l [a "err", a e.kind, a (e.msg.replace " " "_" |>.replace "(" "[" |>.replace ")" "]")]
+
+def respond (line : String) : String :=
+  match Sexp.parseMany line with
+  | none => "(bad-request unparsable)"
+  | some [] => "(bad-request empty)"
+  | some (.atom "compile" :: .atom skip :: r :: _) =>
+    match Routine.ofSexp r with
+    | none => "(bad-request routine)"
+    | some r =>
+      match compileRoutineWith Generated.defaultStages Cmp.poly (skip == "1") r with
+      | .ok c => Sexp.toString (l [a "ok", c.toSexp])
+      | .error e => Sexp.toString (errSexp e)
+  | some (.atom "evaluate" :: c :: asg :: _) =>
+    match CRoutine.ofSexp c, listOfSexp localOfSexp asg with
+    | some c, some asg =>
+      match evaluate Cmp.poly c asg with
+      | .ok c => Sexp.toString (l [a "ok", c.toSexp])
+      | .error e => Sexp.toString (errSexp e)
+    | _, _ => "(bad-request evaluate)"
+  | some (.atom "echo" :: e :: _) =>
+    match Expr.ofSexp e with
+    | some e => Sexp.toString e.toSexp
+    | none => "(bad-request expr)"
+  | some (.atom cmd :: _) => s!"(bad-request unknown-command {cmd})"
+  | some _ => "(bad-request shape)"
+
+partial def loop (h : IO.FS.Stream) (out : IO.FS.Stream) : IO Unit := do
+  let line ← h.getLine
+  if line.isEmpty then return ()
+  let line := line.trimAscii.toString
+  if !line.isEmpty then
+    out.putStrLn (respond line)
+    out.flush
+  loop h out
+
+def main : IO Unit := do loop (← IO.getStdin) (← IO.getStdout)
